@@ -374,6 +374,7 @@ func (this *Dataset) Search(ctx context.Context, query math.Vector, k uint) (ind
 
 	result := make(index.SearchResult, 0, int(k)*len(nodePartitions))
 	for i := 0; i < len(nodePartitions); i++ {
+		verifPause("dataset.search.collect")
 		select {
 		case items := <-resultCh:
 			result = append(result, items...)
@@ -418,6 +419,7 @@ func (this *Dataset) SearchPartitions(ctx context.Context, partitionIds []uuid.U
 
 	result := make(index.SearchResult, 0, int(k)*len(partitions))
 	for i := 0; i < len(partitions); i++ {
+		verifPause("dataset.searchpartitions.collect")
 		select {
 		case items := <-resultCh:
 			result = append(result, items...)
